@@ -14,6 +14,7 @@ import (
 
 	"verif/harness/internal/echgen"
 	"verif/harness/internal/echrun"
+	"verif/harness/internal/hellogen"
 	"verif/harness/internal/hpkex"
 	"verif/harness/internal/mon"
 	"verif/harness/internal/tap"
@@ -236,6 +237,13 @@ func TestCheck(t *testing.T) {
 			}
 		}
 		try("payload-extended", rebuild(f.KDF, f.AEAD, f.ConfigID, f.Enc, append(append([]byte{}, f.Payload...), 0)), b.keys, len(f.Payload)+1)
+		// bytes appended inside the ClientHello body after the extensions block (handshake and record lengths adjusted):
+		// the outer hello is no longer the one the payload was bound to
+		{
+			hh := h.Clone()
+			hh.Trailing = hellogen.Bytes(rng, 1+rng.IntN(24))
+			try("trailing-bytes-in-body", hh.HelloRecord(0x0301), b.keys, len(hh.Trailing))
+		}
 		// transplant: payload+enc of this hello inside another outer hello for the same key
 		if b.offer != nil {
 			o := echgen.DefaultOpts()
@@ -250,6 +258,40 @@ func TestCheck(t *testing.T) {
 			}
 		}
 	})
+
+	// -- honestly sealed under a suite the held key's config does not list --
+	nu := r.N(60, 3000)
+	r.Parallel("unlisted-suite", nu, func(i int, rng *mrand.Rand) {
+		listed := aeads[i%3]
+		var lists [][]uint16
+		lists = append(lists, []uint16{listed})
+		lists = append(lists, []uint16{listed, aeads[(i+1)%3]})
+		for li, l := range lists {
+			k := echgen.NewKey(uint8(rng.IntN(256)), "public.example", l...)
+			for _, a := range aeads {
+				isListed := false
+				for _, x := range l {
+					if x == a {
+						isListed = true
+					}
+				}
+				o := echgen.DefaultOpts()
+				o.MaxExtra = 1
+				of := echgen.Gen(rng, k, a, o) // sealed with the right key, id, info and AAD, under AEAD a
+				c := map[string]any{"config_suites": l, "sealed_with": a, "record": mon.Hex(of.Record()), "config": mon.Hex(k.Config)}
+				if isListed {
+					if out := echrun.Run(of.Record(), []ech.Key{k.TLSKey()}); out.Err != nil || !out.Accepted {
+						r.Inconclusive("control: offer under a listed suite not accepted (%v)", out.Err)
+					}
+					continue
+				}
+				mustReject(r, "unlisted-suite", i, "suite-not-in-config", of.Record(), []ech.Key{k.TLSKey()}, c)
+				r.Eval(fmt.Sprintf("unlisted|%d|%d|%d", li, listed, a))
+				r.Count("subst_suite-not-in-config", 1)
+			}
+		}
+	})
+	r.Floor("subst_suite-not-in-config", int64(nu))
 
 	// -- every payload length (exhaustive) for the first generated base --
 	{
